@@ -894,6 +894,41 @@ func (rn *runner) Exec(op string) string {
 			return "E:" + tpErrClass(err.Error())
 		}
 		return "ok " + fmtTP(p)
+	case "smax":
+		f := &wire.StreamFrame{StreamID: protocol.StreamID(u64(kv(ws, "sid="))), Offset: protocol.ByteCount(u64(kv(ws, "off="))), DataLenPresent: kv(ws, "len=") == "1"}
+		return fmt.Sprint(int64(f.MaxDataLen(protocol.ByteCount(u64(arg(1))), protocol.Version1)))
+	case "cmax":
+		f := &wire.CryptoFrame{Offset: protocol.ByteCount(u64(kv(ws, "off=")))}
+		return fmt.Sprint(int64(f.MaxDataLen(protocol.ByteCount(u64(arg(1))))))
+	case "dmax":
+		f := &wire.DatagramFrame{DataLenPresent: kv(ws, "len=") == "1"}
+		return fmt.Sprint(int64(f.MaxDataLen(protocol.ByteCount(u64(arg(1))), protocol.Version1)))
+	case "ssplit":
+		f, ok := frameOf(ws[2:]).(*wire.StreamFrame)
+		if !ok {
+			return "skip"
+		}
+		nf, split := f.MaybeSplitOffFrame(protocol.ByteCount(u64(arg(1))), protocol.Version1)
+		switch {
+		case !split:
+			return "nosplit"
+		case nf == nil:
+			return "nil"
+		}
+		return fmtFrame(nf) + " | " + fmtFrame(f)
+	case "csplit":
+		f, ok := frameOf(ws[2:]).(*wire.CryptoFrame)
+		if !ok {
+			return "skip"
+		}
+		nf, split := f.MaybeSplitOffFrame(protocol.ByteCount(u64(arg(1))), protocol.Version1)
+		switch {
+		case !split:
+			return "nosplit"
+		case nf == nil:
+			return "nil"
+		}
+		return fmtFrame(nf) + " | " + fmtFrame(f)
 	case "tokrt":
 		return execTokenRoundTrip(ws)
 	case "tokdec":
